@@ -2,6 +2,7 @@ package gl
 
 import (
 	"fmt"
+	"strings"
 )
 
 // interp.go: big-step evaluator for the emitted GooseLang, following the
@@ -320,6 +321,19 @@ func (in *Interp) defValue(th *Thread, idx int) Val {
 	return v
 }
 
+// UnmodelledLibraryNames are library names the translator can emit that the model does not implement
+// (filled by the calibration step from the translator's own name table); using one is "unsupported".
+var UnmodelledLibraryNames = map[string]bool{"NewProph": true, "ResolveProph": true}
+
+// KnownLibraryName reports whether the model implements the library name.
+func KnownLibraryName(name string) bool {
+	if _, ok := prims[name]; ok {
+		return true
+	}
+	_, ok := LibraryArity(name)
+	return ok
+}
+
 // global resolves a Gallina identifier as Coq would at the point of definition `scope`:
 // the latest earlier definition of this file, else the library.
 func (in *Interp) global(th *Thread, name string, env *Env, scope int) Val {
@@ -346,6 +360,16 @@ func (in *Interp) global(th *Thread, name string, env *Env, scope int) Val {
 	}
 	if in.Prog.GoNames[name] {
 		stuck("%s is declared by the Go package but the output has no definition of it", name)
+	}
+	if i := strings.Index(name, "__to__"); i > 0 && !strings.Contains(name, ".") {
+		// the name of a struct-to-interface conversion goose generates for this package: no library defines it
+		stuck("%s (a generated interface conversion) is used but the output has no definition of it", name)
+	}
+	if !strings.Contains(name, ".") && !UnmodelledLibraryNames[name] {
+		// goose writes names of other packages qualified (pkg.Name); an unqualified name is a definition of
+		// this file or one of the GooseLang library names the translator can emit, all of which the model
+		// has (gl/parse_test.go checks the translator's name table against it): Coq finds no such reference
+		stuck("reference %s not found: neither defined in the file nor a GooseLang library name", name)
 	}
 	unsupported("unknown global %s", name)
 	return nil
